@@ -128,6 +128,8 @@ class Instantiator:
                 return self.expr(e[2])
             if e[1] not in self.shared:
                 self.shared[e[1]] = self.expr(e[2])
+                if getattr(self, "on_shared", None) is not None:
+                    self.on_shared(e[1], self.shared[e[1]])       # before its first use (C10: fingerprint at creation)
             return self.shared[e[1]]
         if k == "col":
             return self.out.points[e[1]][e[2]]
